@@ -1221,15 +1221,14 @@ func ValueTupleExpr(query *Query, current Map, expr *sqlparser.ValTuple, opts ..
 	}
 	slice := make([]any, 0)
 	for _, value := range *expr {
-		value, err := Expr(query, current, value, opts...)
+		rs, err := Expr(query, current, value, opts...)
 		if err != nil {
 			return nil, err
 		}
-		if colName, ok := value.(ColumnName); ok {
-			value, err = ExecReader(current, string(colName))
-			if err != nil {
-				return nil, err
-			}
+		// the elements of a tuple are plain values like any other result
+		value, err := ValueOf(query, current, rs)
+		if err != nil {
+			return nil, err
 		}
 		slice = append(slice, value)
 	}
